@@ -248,8 +248,9 @@ func c05(c *Ctx) {
 				c.R.Undecided("R-count", key, key, c.P.Pos(st.Pos()), "no writer with a last-request field to compare with")
 				return
 			}
-			lastTerm := "load(field:" + w.lastField + "(recv:DefaultFanController))"
-			want := w.term.Subst(tb.Of(w.reqParam, nil).String(), &ir.Term{Op: "load", Args: []*ir.Term{{Op: "field:" + w.lastField, Args: []*ir.Term{{Op: "recv:DefaultFanController"}}}}})
+			recvT := "recv:" + recvTypeName(w.fn)
+			lastTerm := "load(field:" + w.lastField + "(" + recvT + "))"
+			want := w.term.Subst(tb.Of(w.reqParam, nil).String(), &ir.Term{Op: "load", Args: []*ir.Term{{Op: "field:" + w.lastField, Args: []*ir.Term{{Op: recvT}}}}})
 			var cur ssa.Value
 			agree := ir.HasFact(facts, token.NEQ, func(x, y ssa.Value) bool {
 				for _, p := range [][2]ssa.Value{{x, y}, {y, x}} {
@@ -275,7 +276,7 @@ func c05(c *Ctx) {
 				fresh = call.Parent() == fn && ir.HasFact(facts, token.EQL, func(x, y ssa.Value) bool { return x == errv && ir.IsNilConst(y) })
 			}
 			requested := ir.HasFact(facts, token.NEQ, func(x, y ssa.Value) bool {
-				return ir.IsNilConst(y) && tb.Of(x, nil).String() == "field:"+w.lastField+"(recv:DefaultFanController)"
+				return ir.IsNilConst(y) && tb.Of(x, nil).String() == "field:"+w.lastField+"("+recvT+")"
 			})
 			incr := false
 			if b, ok := ir.Resolve(st.Val).(*ssa.BinOp); ok && b.Op == token.ADD {
@@ -320,4 +321,15 @@ func c05(c *Ctx) {
 			c.R.Bad("R-count-cycle", c.FK(ufs), c.FK(ufs), c.P.Pos(ufs.Pos()), "the control cycle never performs the third-party check")
 		}
 	}
+}
+
+// recvTypeName returns the name of the receiver's named type of a method ("" for functions).
+func recvTypeName(fn *ssa.Function) string {
+	if fn == nil || fn.Signature.Recv() == nil {
+		return ""
+	}
+	if n := ir.NamedOf(fn.Signature.Recv().Type()); n != nil {
+		return n.Obj().Name()
+	}
+	return ""
 }
